@@ -18,24 +18,7 @@ MODES = ['compact', 'scatter', 'balanced', 'numa-balanced', 'none']
 # Findings of the pinned tree reproduced by this check (text for /verif/known_findings.txt is in
 # notes/C15.md; lines there with property=C15 are honoured as well).  A monitor message that
 # matches none of these signatures is a VIOLATION.
-LOCAL_KNOWN = [
-    {'id': 'numa-balanced-pu-number-lacks-core-offset',
-     'signature': 'reported pu N of thread N differs from bound pu N (mode numa-balanced'},
-    {'id': 'numa-balanced-rounding-leaves-thread-unbound',
-     'signature': 'thread N has an empty mask (mode numa-balanced'},
-    {'id': 'numa-balanced-asymmetric-cores-never-returns',
-     'signature': 'does not terminate (mode numa-balanced'},
-    {'id': 'numa-balanced-asymmetric-cores-share-pu',
-     'signature': 'share pu N (mode numa-balanced'},
-    {'id': 'max-cores-compact-oversubscribes',
-     'signature': 'share pu N (mode compact, process mask ignored, max_cores below thread count'},
-    {'id': 'max-cores-compact-fewer-workers-than-threads',
-     'signature': 'workers started for N requested threads (bind compact, threads N, process mask ignored, cores below thread count'},
-    {'id': 'max-cores-scatter-never-returns',
-     'signature': 'does not terminate (mode scatter, process mask ignored, max_cores below thread count'},
-    {'id': 'max-cores-balanced-never-returns',
-     'signature': 'does not terminate (mode balanced, process mask ignored, max_cores below thread count'},
-]
+LOCAL_KNOWN = []    # moved to /verif/known_findings.txt
 
 
 # ------------------------------------------------------------------------------ topologies
